@@ -7,7 +7,7 @@ CONSTANTS
   Pool <- Pool5
   PoolVal <- PoolVal5
   Maturity = 3
-  Flags = {"badRoot", "badSums", "badPrevRoot", "badSize", "badKernelRoot", "badTime"}
+  Flags = {"badRoot", "badSums", "badPrevRoot", "badSize", "badKernelRoot", "badTime", "badRproofRoot", "badKernelSize"}
   MaxDeliveries = 12
   HeadersFirst = FALSE
   SimProfile = "mixed"
